@@ -136,7 +136,16 @@ def run_connect(case):
                 t = N.FakeUnixTransport() if kind == 'unix' else N.FakeTransport()
                 conn_proto.makeConnection(t)
                 break
-            new[2].clientConnectionFailed(reactor.connectors[idx], Failure(ConnectionRefusedError()))
+            # an address can be unreachable in many ways; not all of them are ConnectError subclasses
+            from twisted.internet import error as TE
+            kinds = [ConnectionRefusedError, TE.DNSLookupError, TE.TimeoutError, TE.NoRouteError, TE.ConnectError,
+                     TE.ConnectingCancelledError, OSError]
+            exc_cls = kinds[(case.get('fail', 0) + idx) % len(kinds)]
+            try:
+                exc = exc_cls('unreachable') if exc_cls is not TE.ConnectingCancelledError else exc_cls(None)
+            except Exception:
+                exc = ConnectionRefusedError()
+            new[2].clientConnectionFailed(reactor.connectors[idx], Failure(exc))
         # expected order of attempts: listed order up to and including the first reachable one
         first = reach.index(True) if True in reach else None
         want_n = len(entries) if first is None else first + 1
@@ -254,6 +263,8 @@ def enum_connect(tier):
             if True not in reach:
                 yield {'entries': entries, 'reachable': reach, 'variant': 'ideal', 'crash': None}
                 yield {'entries': entries, 'reachable': reach, 'variant': 'ideal', 'crash': None, 'decorate': True}
+                for fail in range(1, 7):
+                    yield {'entries': entries, 'reachable': reach, 'variant': 'ideal', 'crash': None, 'fail': fail}
                 continue
             first = reach.index(True)
             kind = 'unix' if entries[first].startswith('unix') else 'tcp'
@@ -266,6 +277,9 @@ def enum_connect(tier):
             yield {'entries': entries, 'reachable': reach, 'variant': 'ideal', 'crash': None, 'total': total, 'decorate': True}
             for via in ('session', 'system'):
                 yield {'entries': entries, 'reachable': reach, 'variant': 'ideal', 'crash': None, 'total': total, 'via': via}
+            if first > 0:
+                for fail in range(1, 7):      # the ways the earlier addresses fail
+                    yield {'entries': entries, 'reachable': reach, 'variant': 'ideal', 'crash': None, 'total': total, 'fail': fail}
             if key in seen:
                 continue
             seen.add(key)
